@@ -19,7 +19,7 @@ prop("C11", True, "seqmc", MC, "explicit-state model checking (BFS with state de
      "All operation sequences up to a depth on the real linkedlist.Buffer with segment sizes incl. 0 and non-powers of two, read sizes ending inside segments, scripted readers/writers; compared with a [][]byte reference incl. copy semantics, Buffered, Len, IsEmpty.",
      TRUST + "Bounded: depth and number of segments.", "DESIGN.md §3, §5/C11")
 prop("C20", True, "seqmc", "exploration", "bounded-exhaustive enumeration of the input domain against an interval-derived reference",
-     "Every int32 (thorough) / every int in [-70000, 2^24] (quick) plus dense windows around every power of two up to 2^62 for the four math functions, every size 1..MaxInt32 for the size-class function, and the full field ranges of the connection identifier.",
+     "Every int32 (thorough) / every int in [-70000, 2^24] (quick) plus dense windows around every power of two up to 2^62 for the four math functions, every size 1..MaxInt32 for the byte-slice pool's size-class function (and, beyond the statement, every size up to 2^26 for the ring-buffer pool's), and the full field ranges of the connection identifier.",
      TRUST + "64-bit arguments away from powers of two are covered by windows only.", "DESIGN.md §3, §5/C20")
 
 prop("C12", True, "seqmc", MC, "explicit-state model checking (BFS with state dedup) of the real pools with an address ledger as oracle",
@@ -29,7 +29,7 @@ prop("C14", True, "seqmc", MC, "explicit-state model checking (BFS to closure) o
      "Closure of all reachable registry layouts for small descriptor alphabets on the map registry, the gc_opt matrix with the real geometry, and the gc_opt matrix with scaled geometries 4x2 and 4x4 (row-boundary crossings enumerable), plus scripted 65538-connection populations on the real geometry; lookups of every descriptor, count, visit-exactly-once, shutdown pattern and the stored indexes of every live connection checked after each transition.",
      TRUST + "Scaled geometry changes only the two geometry constants of internal/gfd (asserted by the rewriter).", "DESIGN.md §3, §5/C14")
 prop("C15", True, "seqmc", MC, "exhaustive enumeration of policy inputs and explicit-state BFS of the least-connections transition system on the real load balancers",
-     "Round-robin for every N in 1..256, least-connections as BFS over accept/close sequences plus every count vector in {0..3}^N (N<=5), source-addr-hash for every N in 1..256 over an address alphabet, all on the real loadBalancer implementations with real connection counters.",
+     "Round-robin for every N in 1..256 from a fresh cursor and from cursor values around 2^16/2^31/2^32, least-connections as BFS over accept/close sequences plus every count vector in {0..3}^N (N<=5), source-addr-hash for every N in 1..256 over an address alphabet, all on the real loadBalancer implementations with real connection counters.",
      TRUST + "Policy part uses fake loops; the live clause (callbacks run on the assigned loop) is decided by the scheduler-based engine unit when present in the evidence.", "DESIGN.md §5/C15")
 prop("C16", True, "seqmc", "exploration", "bounded-exhaustive enumeration of strings, grammar derivations and integer options",
      "Every string up to length 5 (6 thorough) over a 20-symbol alphabet behind 5 prefixes, every derivation of an address grammar, every capacity/chunk value in [-2,2^17] and around every power of two up to 2^62 through createListeners and NewClient, every (Multicore, NumEventLoop) pair.",
@@ -56,7 +56,7 @@ prop("C04", True, "sched", MC, "stateless model checking (delay-bounded DFS) of 
      "About 30 connection histories (peer close, half close, Close action from OnOpen/OnTraffic/OnClose, async Close/CloseWithCallback/Wake/AsyncWrite racing with closes, EventLoop.Close inside a callback, failing Write, late requests after descriptor re-use, a framework-deferred read (ET chunk limit) meeting descriptor re-use in reactor mode and over TCP with SO_REUSEPORT, shutdown with open connections, cross-loop closes; client side: connected UDP sockets incl. late requests after re-use, two-loop client, failing Enroll) x {LT,ET}: per-connection lifecycle monitor, error classification, CountConnections at quiescence, on every explored execution.",
      ENGINE_NOTE, "DESIGN.md §5/C04")
 prop("C06", True, "sched", MC, "stateless model checking (delay-bounded DFS, virtual time) of the real engine's shutdown paths",
-     "Shutdown requested from every documented source (Engine.Stop, package Stop, Shutdown action from OnOpen/OnTraffic/OnClose/OnTick/OnBoot, Client.Stop) (also from an OnTraffic that already closed its connection, and from an OnTraffic caused by Wake) in idle/accepting/pending-output/busy-sender/async-in-flight/ticker/two-listener situations, incl. the SO_REUSEPORT mode's ticker (UDP listener), x {LT,ET}: Run returns nil within the step horizon, OnShutdown once, every opened connection closed once before the return, nothing afterwards.",
+     "Shutdown requested from every documented source (Engine.Stop, package Stop, Shutdown action from OnOpen/OnTraffic/OnClose/OnTick/OnBoot, Client.Stop) (also from an OnTraffic that already closed its connection, and from an OnTraffic caused by Wake) in idle/accepting/pending-output/busy-sender/async-in-flight/ticker/two-listener situations, incl. the SO_REUSEPORT mode's ticker (UDP listener) and the shutdown that follows a hard accept error, x {LT,ET}: Run returns nil within the step horizon, OnShutdown once, every opened connection closed once before the return, nothing afterwards.",
      ENGINE_NOTE + "Bounded time = bounded scheduler steps under fairness; virtual clock.", "DESIGN.md §5/C06")
 prop("C07", True, "sched", MC, "stateless model checking (delay-bounded DFS) of the real engine with a descriptor ledger in the system-call shim as oracle",
      "The C04 histories and the C06 shutdown scenarios evaluated with the ledger: ownership of every fd number, framework calls on closed/foreign descriptors, double close, leaks at the return of Run, unix-socket file removal.",
@@ -66,7 +66,7 @@ prop("C18", True, "sched", "fault_enumeration", "exhaustive fault enumeration (e
      "Two checked echo connections and a liveness probe x {LT,ET} x {small, ring-crossing payloads}: all single faults, all pairs of faults and all single faults combined with one schedule deviation (quick), two schedule deviations (thorough); only the victim may be affected, exactly one OnClose with a non-nil error iff opened, descriptor released, engine keeps serving, retryable errors invisible. Plus: start-up resource exhaustion (epoll_create1/eventfd/registration failing), transient accept errors in SO_REUSEPORT mode (TCP), closing a connection whose socket is really full (persistent EAGAIN) while a bystander must be served, and a failing registration in Client.Enroll.",
      ENGINE_NOTE + "Errno menu per site is an assumption listed in the evidence; eventfd/listener registration faults are not injected.", "DESIGN.md §5/C18")
 prop("C19", True, "sched", MC, "stateless model checking (delay- and deviation-bounded DFS) of the control API against a reference state machine",
-     "Zero Engine handle; sequences of control calls from a 10-call alphabet while running, racing with shutdown (second thread) and after shutdown; Stop(live ctx) nil only when the ledger shows pollers/listeners closed; Stop(cancelled ctx) returns the context error and the shutdown still completes; second Stop harmless; Register delivers exactly one result; Register and Client.Enroll with an injected epoll_ctl(ADD) failure deliver an error, close the duplicate once and leave the engine/client serving.",
+     "Zero Engine handle; sequences of control calls from a 10-call alphabet while running, racing with shutdown (second thread) and after shutdown; Stop(live ctx) nil only when the ledger shows pollers/listeners closed; Stop(cancelled ctx) returns the context error and the shutdown still completes; second Stop harmless; Register delivers exactly one result; Register and Client.Enroll with an injected epoll_ctl(ADD) failure deliver an error, close the duplicate once and leave the engine/client serving; Register of an unsupported Unix-domain socket kind delivers exactly one (error) result; a Runnable handing on the in-shutdown error is not a shutdown request; after a loop died of a hard accept error (EMFILE, injected; reactor mode and TCP/SO_REUSEPORT) the handle reports the in-shutdown state, every connection was closed and no descriptor is left.",
      ENGINE_NOTE, "DESIGN.md §5/C19")
 
 prop("C05", True, "sched", MC, "stateless model checking of the -race build with race-detector-invisible (futex, //go:norace) scheduler hand-offs: the Go race detector is a per-schedule oracle inside an exhaustive schedule enumeration",
